@@ -60,18 +60,18 @@ Proof.
   all: repeat match goal with Hq : getq _ _ = Some ?q |- _ =>
          lazymatch goal with _ : rq_ok _ q |- _ => fail | _ => pose proof (M _ (BR _ _ Hq)) end end.
   all: try solve [assumption].
-  all: try solve [unfold rq_ok, f1_q, tail_q in *; simpl in *; intuition (try discriminate; inv_some; simpl; eauto)].
+  all: try solve [unfold rq_ok, tail_q in *; f1_split; simpl in *; intuition (try discriminate; inv_some; simpl; eauto)].
   - unfold rq_ok, fresh_rq; simpl; repeat split; intros; try discriminate.
     destruct (alookup (reqs s) tag); discriminate.
   - assert (X : qb (setq (setq s r0 (f1_q q q r0)) r0
             (with_links (f1_q q q r0) (Some r0) (q_prev (f1_q q q r0)) (q_next (f1_q q q r0)))) r0 hb = true).
     { unfold qb. rewrite getq_setq, Nat.eqb_refl. rewrite (getq_setq_same s r0 _ q) by auto. reflexivity. }
-    unfold rq_ok, f1_q in *; simpl in *; intuition (try discriminate; inv_some; simpl; eauto).
+    unfold rq_ok in *; f1_split; simpl in *; intuition (try discriminate; inv_some; simpl; eauto).
   - assert (X : qb (setq (setq s r (f1_q q qt r0)) r0
             (with_links qt (Some r) (q_prev qt) (q_next qt))) r hb = true).
     { unfold qb. rewrite getq_setq, (Nat.eqb_sym r0 r), E.
       rewrite (getq_setq_same s r _ q) by auto. reflexivity. }
-    unfold rq_ok, f1_q in *; simpl in *; intuition (try discriminate; inv_some; simpl; eauto).
+    unfold rq_ok in *; f1_split; simpl in *; intuition (try discriminate; inv_some; simpl; eauto).
   - assert (X : qb (setq (setq s r0 (with_flush qt true)) r0
             (with_pc (with_flush qt true) (WF3 r0 false))) r0 q_flush = true).
     { unfold qb. rewrite getq_setq, Nat.eqb_refl. rewrite (getq_setq_same s r0 _ qt) by auto. reflexivity. }
